@@ -62,6 +62,10 @@ def replay_state(st, out):
         for c in st["hist"]:
             if c["f"] == "xfer":
                 rel = rel.transferred_to(engs[c["dest"]])
+            elif c["f"] == "un":
+                rel = build.unary_op(c["op"]).apply(rel)
+            elif c["f"] == "mat":
+                rel = rel.materialized(c["name"])
             else:
                 rel = do_join(c, rel, F, engs)
     except Exception as exc:  # noqa: BLE001
